@@ -287,7 +287,11 @@ impl M2Animation {
         if version <= 256 {
             // Vanilla format
             writer.write_u32_le(self.start_timestamp)?;
-            writer.write_u32_le(self.end_timestamp.unwrap_or(self.start_timestamp + 1000))?;
+            // The default end is only computed when no end is stored, and cannot overflow
+            writer.write_u32_le(
+                self.end_timestamp
+                    .unwrap_or_else(|| self.start_timestamp.saturating_add(1000)),
+            )?;
             writer.write_f32_le(self.movement_speed)?;
             writer.write_u32_le(self.flags)?;
             writer.write_i16_le(self.frequency)?;
